@@ -29,6 +29,9 @@ structure Tables where
   errorClasses : List Bytes
   /-- actions of lines that are not replies (events, error events, log messages, help text lines) -/
   asyncActions : List Bytes
+  /-- actions of the requests a module carries out (`read`, `change`, `do`): the only ones that may
+  change what later requests are answered -/
+  stateActions : List Bytes
 
 /-- what `dispatcher.handle_request(conn, msg)` ends with -/
 inductive DispResult (J : Type) where
@@ -136,6 +139,57 @@ def serve {J σ : Type} (T : Tables) (L : Lib J) (d : Disp σ J) : Bytes → σ 
     let r := serveLines T L d st f.lines
     let s := serve T L d f.rest r.2 cs
     ⟨r.1 ++ s.outs, s.buf, s.st⟩
+
+/-! ## The peer goes away: `sendall` fails
+
+`send_reply` (tcp.py:93-112): `with send_lock: if self.running: try sendall(frame) except …: self.running = False`.
+Both loops of `handle()` are `while self.running`: the line being processed is finished (the
+dispatcher is not interrupted, its further sends and the reply are skipped), no further line is
+taken out of the buffer, no further chunk is received.  The socket is a parameter: how many
+`sendall` calls still succeed.  What a failing `sendall` wrote before it raised is not modelled. -/
+
+structure SockSt where
+  /-- number of `sendall` calls that will still succeed -/
+  left : Nat
+  /-- `self.running` -/
+  running : Bool
+deriving DecidableEq, Repr
+
+/-- the `send_reply` calls made while one line is processed: the frames delivered, the socket afterwards -/
+def sendAll {α : Type} (s : SockSt) (frames : List α) : List α × SockSt :=
+  if !s.running then ([], s)
+  else if frames.length ≤ s.left then (frames, ⟨s.left - frames.length, true⟩)
+  else (frames.take s.left, ⟨0, false⟩)
+
+structure ServedF (J σ : Type) where
+  /-- the frames delivered -/
+  outs : List (Out J)
+  st : σ
+  sock : SockSt
+  /-- number of lines taken out of the buffer and processed -/
+  done : Nat
+
+/-- the inner loop `while self.running: msg = self.next_message() …` -/
+def serveLinesF {J σ : Type} (T : Tables) (L : Lib J) (d : Disp σ J) : SockSt → σ → List Bytes → ServedF J σ
+  | s, st, [] => ⟨[], st, s, 0⟩
+  | s, st, l :: ls =>
+    if !s.running then ⟨[], st, s, 0⟩
+    else
+      let r := handleLine T L d st l
+      let sent := sendAll s r.1
+      let r' := serveLinesF T L d sent.2 r.2 ls
+      ⟨sent.1 ++ r'.outs, r'.st, r'.sock, r'.done + 1⟩
+
+/-- `handle()` with a socket whose `sendall` may fail: the outer loop `while self.running` -/
+def serveF {J σ : Type} (T : Tables) (L : Lib J) (d : Disp σ J) : SockSt → Bytes → σ → List Bytes → ServedF J σ
+  | s, _, st, [] => ⟨[], st, s, 0⟩
+  | s, buf, st, c :: cs =>
+    if !s.running then ⟨[], st, s, 0⟩
+    else
+      let f := feed buf c
+      let r := serveLinesF T L d s st f.lines
+      let r' := serveF T L d r.sock f.rest r.st cs
+      ⟨r.outs ++ r'.outs, r'.st, r'.sock, r.done + r'.done⟩
 
 /-- the byte strings handed to `sendall`, in order -/
 def wire {J : Type} (L : Lib J) (outs : List (Out J)) : List Bytes := outs.map (fun o => encodeFrame L o.msg)
